@@ -1,6 +1,9 @@
 package core_domain
 
-import "strings"
+import (
+	"sort"
+	"strings"
+)
 
 type CodeDataStruct struct {
 	NodeName        string
@@ -39,6 +42,18 @@ func (d *CodeDataStruct) SetMethodFromMap(methodMap map[string]CodeFunction) {
 		methodsArray = append(methodsArray, value)
 	}
 
+	// source order: the map has none, and several reports walk the functions in order
+	sort.Slice(methodsArray, func(i, j int) bool {
+		a, b := methodsArray[i].Position, methodsArray[j].Position
+		if a.StartLine != b.StartLine {
+			return a.StartLine < b.StartLine
+		}
+		if a.StartLinePosition != b.StartLinePosition {
+			return a.StartLinePosition < b.StartLinePosition
+		}
+		return methodsArray[i].Name < methodsArray[j].Name
+	})
+
 	d.Functions = methodsArray
 }
 
@@ -56,7 +71,12 @@ func BuildCallMethodMap(deps []CodeDataStruct) map[string]CodeFunction {
 	var callMethodMap = make(map[string]CodeFunction)
 	for _, clz := range deps {
 		for _, method := range clz.Functions {
-			callMethodMap[method.BuildFullMethodName(clz)] = method
+			name := method.BuildFullMethodName(clz)
+			if known, ok := callMethodMap[name]; ok {
+				// overloads share one full name: the entry holds the calls of all of them
+				method.FunctionCalls = append(append([]CodeCall{}, known.FunctionCalls...), method.FunctionCalls...)
+			}
+			callMethodMap[name] = method
 		}
 	}
 	return callMethodMap
